@@ -11,6 +11,7 @@ CONSTANTS MaxLen,      \* number of calls in a script
           GenIn,       \* in-place calls a script may contain
           GenCopy,     \* copying calls a script may contain
           GenFreeze,   \* BOOLEAN: may a script freeze a handle
+          GenRegister, \* BOOLEAN: may a script register a type of DynTypes
           Spellings,   \* subset of {"method", "op", "op2", "list"}
           GenHandles,  \* handles calls are made on (receivers / results)
           GenSources,  \* receivers of copying calls
@@ -52,7 +53,12 @@ GFreeze == \E h \in GenHandles :
     /\ GenFreeze /\ ~hs[h].frozen /\ Freeze(h)
     /\ hist' = Append(hist, Ev("freeze", TRUE, h, h, DefArg(h), "method"))
 
-GNext == Len(hist) <= MaxLen /\ (GDo \/ GMake \/ GFreeze)
+(* a.k carries is_singleton *)
+GRegister == \E ty \in DynTypes, single \in BOOLEAN :
+    /\ GenRegister /\ Register(ty, single)
+    /\ hist' = Append(hist, Ev("register", TRUE, 1, 1, [DefArg(1) EXCEPT !.k = IF single THEN 1 ELSE 0], "method"))
+
+GNext == Len(hist) <= MaxLen /\ (GDo \/ GMake \/ GFreeze \/ GRegister)
 
 (* In -simulate mode TLC evaluates the invariant on EVERY successor of the state it is
    leaving, so each random walk would emit all its possible last calls (hundreds).  A
